@@ -177,6 +177,17 @@ CHECKS = {
             "Trusted: TLC, scipy.quad, eko basis functions, third-party kernels. Tolerance 10 x (reported quadrature errors) + 5e-6 of the "
             "scale (5e-5 at N3LO: the code trims the window by 1e-10 against ln^5(1-z) growth); largest deviation on the pinned tree is 10% of it.",
             "DESIGN.md 7/C01"),
+    "C08": ("exploration",
+            "TLC proves AsyMirrorsMassive on the assembly model (same exact parton weights, one asymptotic kernel per log tower) + FFNS vs "
+            "FFN0 real runs over five decades of Q2/m2 contracted with a test PDF; TLC judges the decay relation on the quantised sequences",
+            "A limit is a statement of analysis: it is sampled on decades of Q2/m2. The specification proves exhaustively, on the lattice of "
+            "cells, that the FFN0 assembly mirrors the FFNS one (heavy gluon/singlet VV+AA, heavy-quark initiated, CC quark/gluon; the "
+            "'missing' channel with its named deviation) and states Rel_PowerDecay; real FFNS and FFN0 runs for NC F2/FL charm and bottom "
+            "(also bottom with NfFF=3), CC F2/FL/F3 charm and the missing channel through F2/FL_light, orders 0..2, per row class, are "
+            "judged by TLC.",
+            "Trusted: TLC, LeProHQ. Bound at Q2/m2 = 1e5, 1e6: 5e-3 of the F2-type row scale (largest value on the pinned tree 9.8e-4; the "
+            "massive O(a_s^2) library shows isolated spikes at intermediate ratios, so no step-by-step bound). Known findings: missing channel.",
+            "DESIGN.md 7/C08"),
 }
 
 PENDING = {}
